@@ -55,6 +55,11 @@ if os.path.exists(p):
     except Exception: meta={}
 meta.update({"property":ID,"variant":V,"suite_failures_with_change":int(suite),"demo_exit_with_change":int(w),"demo_exit_without_change":int(wo),
  "needs_to_manifest":open(os.path.join(D,'notes.md')).read()[:2000],"ran":"tools/seedtest.sh %s %s %s"%(ID,V,checks)})
-meta.setdefault("checks",{}).update(json.loads(res))
+import subprocess,time
+new=json.loads(res)
+head=subprocess.run(['git','-C','/verif','log','--format=%h','-1'],capture_output=True,text=True).stdout.strip()
+for c,v in new.items():
+    meta.setdefault("history",[]).append({"check":c,"tier":v["tier"],"exit":v["exit"],"framework_commit":head,"when":time.strftime("%Y-%m-%d %H:%M")})
+meta.setdefault("checks",{}).update(new)
 json.dump(meta,open(p,'w'),indent=1)
 PY
